@@ -20,6 +20,7 @@ answer (one line, parts separated by " | "):
 import ChibiVerif.Model.Init
 import ChibiVerif.Spec.InitSpec
 import ChibiVerif.Model.InitCursor
+import ChibiVerif.Model.InitUnionFix
 
 namespace ChibiVerif.Driver.InitCmd
 open ChibiVerif.Init
@@ -162,7 +163,8 @@ def part {α : Type} (x : Except Fail α) (f : α → String) : String :=
   | .ok a => f a
   | .error e => showFail e
 
-def answer (ty : Ty) (toks : List ITok) : String :=
+/-- `parse`: `initializer` of Model/Init.lean (`drv_c05 init`) or of the alternative Model/InitUnionFix.lean (`drv_c05 initu`) -/
+def answer (parse : Nat → Ty → List ITok → Except Fail (Init × Ty × List ITok)) (ty : Ty) (toks : List ITok) : String :=
   let fuel := stdFuel ty toks
   let spec := InitSpec.initFull ty toks
   let specPart := match spec with
@@ -172,7 +174,7 @@ def answer (ty : Ty) (toks : List ITok) : String :=
       let cells := part (autoObject r.obj rty) showCells
       (r.obj, rty, s!"spec {cells} over={if r.over then 1 else 0} xover={if r.fl.xover then 1 else 0} wide={if r.fl.wide then 1 else 0} reinit={if r.fl.reinit then 1 else 0} tyok={if InitSpec.tyOk ty then 1 else 0}")
     | .error e => (Init.flex, ty, "spec " ++ showFail e)
-  match initializer fuel ty toks with
+  match parse fuel ty toks with
   | .error e => s!"parse {showFail e} | {specPart.2.2}"
   | .ok (init, rty, rest) =>
     let st := gvarInit init rty
@@ -194,16 +196,19 @@ def answer (ty : Ty) (toks : List ITok) : String :=
       | _, _ => "0"
     s!"{specPart.2.2} same={same} | cover {"".intercalate (mask.map hex2)} | flex {flexPart} cursor={cursorOk}"
 
-partial def loop (h : IO.FS.Stream) : IO UInt32 := do
+partial def loop (parse : Nat → Ty → List ITok → Except Fail (Init × Ty × List ITok)) (h : IO.FS.Stream) : IO UInt32 := do
   let line ← h.getLine
   if line.isEmpty then return 0
   let ws := words line
-  if ws.isEmpty then loop h else
+  if ws.isEmpty then loop parse h else
   let (tyW, tokW) := ws.span (· ≠ "|")
   match parseTy tyW, parseToks (tokW.drop 1) with
-  | some (ty, []), some toks => IO.println (answer ty toks); loop h
-  | _, _ => IO.println "bad-op"; loop h
+  | some (ty, []), some toks => IO.println (answer parse ty toks); loop parse h
+  | _, _ => IO.println "bad-op"; loop parse h
 
-def initMain : IO UInt32 := do loop (← IO.getStdin)
+def initMain : IO UInt32 := do loop initializer (← IO.getStdin)
+
+/-- the alternative model with the repaired `union_initializer` (Model/InitUnionFix.lean) -/
+def initUMain : IO UInt32 := do loop UFix.initializer (← IO.getStdin)
 
 end ChibiVerif.Driver.InitCmd
